@@ -101,7 +101,10 @@ func encDescribe(c *encCase) map[string]any {
 }
 
 func (g *rng) encMessage(multiline bool, plain bool) string {
-	switch g.intn(12) {
+	switch g.intn(13) {
+	case 12:
+		// white space of every kind: only \n \r space and tab make a message blank
+		return []string{"\f", "\v", "\u00a0", "\u3000", "\u2028", " \f ", "\t\u00a0", "\u0085", " ", "\r\n", "\t \n"}[g.intn(11)]
 	case 0:
 		return ""
 	case 1:
